@@ -11,9 +11,11 @@ Inductive policy := PLeader | PAll | PNone.
 Definition policy_eqb (a b : policy) : bool :=
   match a, b with PLeader, PLeader | PAll, PAll | PNone, PNone => true | _, _ => false end.
 
-Record pmsg := mkMsg { pm_corr : N; pm_policy : policy; pm_too_large : bool; pm_expected : Z (* -1 = unconditional *) }.
+Record pmsg := mkMsgE { pm_corr : N; pm_policy : policy; pm_too_large : bool; pm_expected : Z (* -1 = unconditional *);
+                        pm_seal_fails : bool (* the stream encrypts at rest and sealing this value fails *) }.
+Definition mkMsg (c : N) (p : policy) (l : bool) (e : Z) : pmsg := mkMsgE c p l e false.
 
-Inductive ackkind := AOk | ATooLarge | AIncorrectOffset.
+Inductive ackkind := AOk | ATooLarge | AIncorrectOffset | AEncryption.
 Record ack := mkAck { ak_corr : N; ak_policy : policy; ak_offset : Z; ak_kind : ackkind }.
 
 Record lstate := mkL {
@@ -106,10 +108,14 @@ Definition foreign_msg : pmsg := mkMsg 0%N PNone false (-1).
 Definition step (s : lstate) (x : lstep) : lstate * list ack :=
   match x with
   | LPublish ms =>
-    let nacks := map (fun m => mkAck (pm_corr m) (pm_policy m) 0 ATooLarge) (filter pm_too_large ms) in
-    let good := filter (fun m => negb (pm_too_large m)) ms in
+    (* a value that cannot be sealed is refused first, whatever its size; the size limit is on the
+       payload as it was received *)
+    let enacks := map (fun m => mkAck (pm_corr m) (pm_policy m) 0 AEncryption) (filter pm_seal_fails ms) in
+    let sealed := filter (fun m => negb (pm_seal_fails m)) ms in
+    let nacks := map (fun m => mkAck (pm_corr m) (pm_policy m) 0 ATooLarge) (filter pm_too_large sealed) in
+    let good := filter (fun m => negb (pm_too_large m)) sealed in
     let '(s', acks) := if l_cc s then store_each s good else store_batch s good in
-    (s', nacks ++ acks)
+    (s', enacks ++ nacks ++ acks)
   | LFollower r o =>
     if existsb (N.eqb r) (l_replicas s) && negb (N.eqb r 0)
     then commit (mkL (l_log s) (set_offset r o (l_isr s)) (l_replicas s) (l_min_isr s) (l_queue s) (l_hw s) (l_cc s))
@@ -158,7 +164,7 @@ Fixpoint grun (s : lstate) (g : reports) (xs : list lstep) : lstate * reports :=
 
 (* ---- correspondence ---- *)
 Record lobs := mkLObs { lo_newest : Z; lo_hw : Z; lo_isr : list (N * Z); lo_acks : list (N * Z * nat) (* corr, offset, kind code; sorted by corr *) }.
-Definition kind_code (k : ackkind) : nat := match k with AOk => 0 | ATooLarge => 1 | AIncorrectOffset => 2 end.
+Definition kind_code (k : ackkind) : nat := match k with AOk => 0 | ATooLarge => 1 | AIncorrectOffset => 2 | AEncryption => 3 end.
 
 Fixpoint insert_by {A} (key : A -> N) (x : A) (l : list A) : list A :=
   match l with
